@@ -2,12 +2,13 @@
 
 from __future__ import annotations
 
-from ..cache import CacheAnalysis, deps, memo_getters, readers_of_cache
+from ..cache import deps, readers_of_cache
 from ..model import AnalysisError
 from ..report import RuleResult
+from ._c17_cache import ShapeFreeCacheAnalysis as CacheAnalysis, memo_getters
 
 
-def cache_rule(ctx, rule_id, prop_id, base_names, floor, clause, only_fields=None):
+def cache_rule(ctx, rule_id, prop_id, base_names, floor, clause, only_fields=None, only_props=None):
     res = RuleResult(rule_id, prop_id, clause, floor=floor)
     p = ctx.p
     classes = []
@@ -19,6 +20,8 @@ def cache_rule(ctx, rule_id, prop_id, base_names, floor, clause, only_fields=Non
         for prop, fld, getter in memo_getters(K):
             if only_fields and fld not in only_fields:
                 continue
+            if only_props and prop not in only_props:
+                continue  # selected by the public property that is memoised; its private cache field may be called anything
             d = deps(K, getter, fld)
             if not d:
                 continue
@@ -48,8 +51,9 @@ def cache_rule(ctx, rule_id, prop_id, base_names, floor, clause, only_fields=Non
                         continue
                     res.inst(f"{K.name}: {fn.qualname} stores an input of {prop} -> must reset {fld}", nontrivial=True, ok=not bad)
                     for dep, line in sorted(bad):
+                        # the key names the fields after the public properties they back (`_vertices`, `_parts`): a private rename keeps it
                         res.find(
-                            fn.cls.name, fn.prop or fn.name, f"stores {dep} without resetting {fld}",
+                            fn.cls.name, fn.prop or fn.name, f"stores {_key_name(K, dep)} without resetting _{prop}",
                             f"{fn.module.relpath}:{line}",
                             f"{fn.qualname} changes {dep}, an input of the memoised {K.name}.{prop}, but a path reaches the "
                             f"exit without `self.{fld} = None`: the next read of .{prop} returns values computed from the old {dep}",
@@ -58,6 +62,23 @@ def cache_rule(ctx, rule_id, prop_id, base_names, floor, clause, only_fields=Non
     if n_memo == 0:
         raise AnalysisError(f"{rule_id}: no memoised getter found (anchor lost)")
     return res
+
+
+def _key_name(K, field):
+    """`_<public property backed by field>` (the usual spelling of the field itself); the field's own name when no property reads just it."""
+    m = K.lookup(field[1:])
+    if m and m[1] == "prop" and m[2].getter is not None and field in deps(K, m[2].getter, ""):
+        return field
+    names = set()
+    for c in K.mro:
+        if not isinstance(c, str):
+            names |= set(c.props)
+    cands = []
+    for name in sorted(names):
+        m = K.lookup(name)
+        if m and m[1] == "prop" and m[2].getter is not None and deps(K, m[2].getter, "") == {field}:
+            cands.append((0 if m[2].setter is not None and field in _stores_any(m[2].setter, {field}) else 1, name))
+    return "_" + min(cands)[1] if cands else field
 
 
 def _reached(K, fn):
@@ -89,37 +110,98 @@ def rule_cache(ctx):
         ctx, "C17.CACHE", "C17", ["GridObject", "Curve"], 20,
         "every setter/method that stores an input field of a memoised geometry getter (centroids of Grid2D, BlockModel, "
         "Octree, DrapeModel; Curve cells<->parts) resets the cache on every path on which it stores",
-        only_fields={"_centroids", "_parts"},
+        only_props={"centroids", "parts"},
     )
 
 
-SIGN_DESTROYING = {"abs", "np.abs", "np.absolute", "np.fabs", "numpy.abs", "np.sort", "sorted", "np.unique"}
+# last component of the called function: np.abs(x) / abs(x) / x.sort() / np.unique(x) ...
+SIGN_DESTROYING = {"abs", "absolute", "fabs", "sort", "sorted", "msort", "unique"}
+_product_calls = {"dot", "matmul", "einsum", "tensordot", "inner"}
+_xyz_fields = ["x", "y", "z"]
 
 
 def _flow_names(fn):
-    """name -> list of value expressions bound to it (Assign / AugAssign, subscript targets count for their base; for-loop targets for the iterable)."""
+    """name -> list of value expressions bound to it, anywhere in the function (flow-insensitive; kept for callers that only need
+    'is this name ever bound from ...').  Assign / AugAssign / AnnAssign (subscript targets count for their base), walrus,
+    for-loop and comprehension targets (bound from the iterable), with-as."""
     import ast
 
     from ..model import unparse
 
     defs = {}
+
+    def bind(t, v):
+        for e in (t.elts if isinstance(t, (ast.Tuple, ast.List)) else [t]):
+            b = e.value if isinstance(e, ast.Starred) else e
+            if isinstance(b, (ast.Tuple, ast.List)):
+                bind(b, v)
+                continue
+            while isinstance(b, ast.Subscript):
+                b = b.value
+            if isinstance(b, (ast.Name, ast.Attribute)):
+                defs.setdefault(unparse(b), []).append(v)
+
     for n in ast.walk(fn.node):
         if isinstance(n, (ast.Assign, ast.AugAssign, ast.AnnAssign)) and n.value is not None:
-            tgs = n.targets if isinstance(n, ast.Assign) else [n.target]
-            for t in tgs:
-                for e in (t.elts if isinstance(t, (ast.Tuple, ast.List)) else [t]):
-                    b = e
-                    while isinstance(b, ast.Subscript):
-                        b = b.value
-                    if isinstance(b, (ast.Name, ast.Attribute)):
-                        defs.setdefault(unparse(b), []).append(n.value)
+            for t in (n.targets if isinstance(n, ast.Assign) else [n.target]):
+                bind(t, n.value)
+        elif isinstance(n, ast.NamedExpr):
+            bind(n.target, n.value)
+        elif isinstance(n, (ast.For, ast.AsyncFor, ast.comprehension)):
+            bind(n.target, n.iter)
+        elif isinstance(n, (ast.With, ast.AsyncWith)):
+            for it in n.items:
+                if it.optional_vars is not None:
+                    bind(it.optional_vars, it.context_expr)
     return defs
+
+
+def _fields_read(K, nodes, sn):
+    """Backing fields (`_x`) of K that the syntax nodes read: directly (self._x, getattr(self, '_x', ..)) or through a property /
+    method of K (self.origin -> _origin, self.dip -> _dip, _vertical), transitively."""
+    import ast
+
+    out = set()
+    for x in nodes:
+        name = None
+        if isinstance(x, ast.Attribute) and isinstance(x.value, ast.Name) and x.value.id == sn and isinstance(x.ctx, ast.Load):
+            name = x.attr
+        elif isinstance(x, ast.Call) and isinstance(x.func, ast.Name) and x.func.id == "getattr" and len(x.args) >= 2 \
+                and isinstance(x.args[0], ast.Name) and x.args[0].id == sn and isinstance(x.args[1], ast.Constant):
+            name = str(x.args[1].value)
+        if name is None:
+            continue
+        m = K.lookup(name)
+        if m and m[1] == "prop" and m[2].getter is not None:
+            out |= deps(K, m[2].getter, "")
+        elif m and m[1] == "method":
+            out |= deps(K, m[2], "")
+        elif name.startswith("_"):
+            out.add(name)
+    return out
+
+
+def _backing(K, *props):
+    """private fields behind public properties of K (self.origin -> {_origin}), whatever they are called"""
+    out = set()
+    for name in props:
+        m = K.lookup(name)
+        if m and m[1] == "prop" and m[2].getter is not None:
+            out |= deps(K, m[2].getter, "")
+    return out
+
+
+def _self_attr(sn, attr):
+    import ast
+
+    return ast.Attribute(value=ast.Name(id=sn, ctx=ast.Load()), attr=attr, ctx=ast.Load())
 
 
 def rule_rot(ctx) -> RuleResult:
     import ast
 
     from ..model import unparse
+    from ._c17_flow import Flow, call_name
 
     res = RuleResult(
         "C17.ROT",
@@ -135,85 +217,255 @@ def rule_rot(ctx) -> RuleResult:
         pr = K.props.get("centroids")
         if pr is None or pr.getter is None or pr.getter.cls is not K:
             continue
-        g = pr.getter
+        rotf = _backing(K, "rotation", "dip")
+        originf = _backing(K, "origin")
+        cache_fields = [f for (pn, f, _g) in memo_getters(K) if pn == "centroids"] or ["_centroids"]
+        g = ctx.view(pr.getter)
         sn = g.self_name or "self"
-        defs = _flow_names(g)
+        fl = Flow(g.node)
 
-        def tainted(e, what, seen=()):
-            """does expression e (transitively through local names) read self.<what>?"""
-            for x in ast.walk(e):
-                if isinstance(x, ast.Attribute) and unparse(x) == f"{sn}.{what}":
-                    return True
-                if isinstance(x, (ast.Name, ast.Attribute)):
-                    nm = unparse(x)
-                    if nm in defs and nm not in seen:
-                        if any(tainted(d, what, seen + (nm,)) for d in defs[nm]):
-                            return True
-            return False
+        def fields(e, env=None):
+            return _fields_read(K, fl.atoms(e, env), sn)
 
-        def is_rot_matrix(e):
-            return tainted(e, "rotation") or tainted(e, "dip")
+        def is_module(e):
+            r = p.resolve_name(g.module, e.id) if isinstance(e, ast.Name) else None
+            return bool(r) and r[0] in ("external", "module")
 
+        # rotation products: an operator / call multiplying a matrix computed from the rotation (or dip) angle with something
         products = []
         for n in ast.walk(g.node):
-            if isinstance(n, ast.BinOp) and isinstance(n.op, ast.MatMult) and is_rot_matrix(n.left):
-                products.append((n, n.right))
-            elif isinstance(n, ast.Call) and unparse(n.func) in ("np.dot", "np.matmul") and len(n.args) == 2 and is_rot_matrix(n.args[0]):
-                products.append((n, n.args[1]))
+            sides = None
+            if isinstance(n, ast.BinOp) and isinstance(n.op, ast.MatMult):
+                sides = [n.left, n.right]
+            elif isinstance(n, ast.Call) and call_name(n) in _product_calls:
+                sides = [a for a in n.args if not (isinstance(a, ast.Constant) and isinstance(a.value, str))]
+                if isinstance(n.func, ast.Attribute) and not is_module(n.func.value) and not (isinstance(n.func.value, ast.Attribute) and is_module(n.func.value.value)):
+                    sides = [n.func.value] + sides  # A.dot(B)
+            if not sides or len(sides) < 2 or not fl.nodes_of(n):
+                continue
+            rot_sides = [s for s in sides if rotf & fields(s)]
+            if not rot_sides:
+                continue
+            operands = [s for s in sides if s not in rot_sides] or sides[1:]
+            products.append((n, operands))
         if not products:
             continue
-        for prod, operand in products:
-            ok = not tainted(operand, "origin")
-            res.inst(f"{K.name}.centroids:{prod.lineno} rotation operand `{unparse(operand)[:30]}` has no origin term", nontrivial=True, ok=ok)
+        for prod, operands in products:
+            ok = not any(originf & fields(o) for o in operands)
+            res.inst(f"{K.name}.centroids:{prod.lineno} rotation operand `{unparse(operands[0])[:30]}` has no origin term", nontrivial=True, ok=ok)
             if not ok:
-                res.find(K.name, "centroids", f"the origin is added before the rotation ({unparse(prod)[:50]})", f"{g.module.relpath}:{prod.lineno}",
+                res.find(K.name, "centroids", "the origin is added before the rotation", f"{g.module.relpath}:{prod.lineno}",
                          "the origin takes part in the rotation: cells are rotated about (0,0,0) instead of about the grid origin, wrong for every rotated grid whose origin is not zero")
-        cache_ok = any(tainted(d, "origin") for nm, ds in defs.items() if nm in (f"{sn}._centroids",) for d in ds) or \
-            any(nm == f"{sn}._centroids" and any(tainted(d, "origin") or any(isinstance(x, ast.Name) and tainted(x, "origin") for x in ast.walk(d)) for d in ds) for nm, ds in defs.items())
+        # what the getter returns / what the cache field holds when it returns
+        cache_ok = any(originf & fields(_self_attr(sn, f), fl.env_exit()) for f in cache_fields) or \
+            any(originf & fields(r.value) for r in ast.walk(g.node) if isinstance(r, ast.Return) and r.value is not None and fl.nodes_of(r.value))
         res.inst(f"{K.name}.centroids: the cached array has the origin added", nontrivial=True, ok=cache_ok)
         if not cache_ok:
-            res.find(K.name, "centroids", "the origin is never added to the centroids", g.where, "cell centres are reported in local coordinates")
+            res.find(K.name, "centroids", "the origin is never added to the centroids", pr.getter.where, "cell centres are reported in local coordinates")
     # (b) signed cell sizes
     bm = p.cls("BlockModel")
     for name in ("u_cells", "v_cells", "z_cells", "centroids"):
         pr = bm.props.get(name)
         if pr is None or pr.getter is None:
             raise AnalysisError(f"anchor BlockModel.{name} not found")
-        g = pr.getter
-        defs = _flow_names(g)
-        flows = []  # expressions reaching the return value / the cache
-
-        def collect(e, seen):
-            flows.append(e)
-            for x in ast.walk(e):
-                if isinstance(x, (ast.Name, ast.Attribute)):
-                    nm = unparse(x)
-                    if nm in defs and nm not in seen:
-                        seen.add(nm)
-                        for d in defs[nm]:
-                            collect(d, seen)
-
-        seen = set()
+        g = ctx.view(pr.getter)
+        sn = g.self_name or "self"
+        fl = Flow(g.node)
+        flows = []  # syntax nodes of the expressions reaching the return value / the cache
         for r in ast.walk(g.node):
-            if isinstance(r, ast.Return) and r.value is not None:
-                collect(r.value, seen)
-        for nm, ds in defs.items():
-            if nm.endswith("._centroids"):
-                for d in ds:
-                    collect(d, seen)
-        bad = [c for e in flows for c in ast.walk(e) if isinstance(c, ast.Call) and unparse(c.func) in SIGN_DESTROYING]
+            if isinstance(r, ast.Return) and r.value is not None and fl.nodes_of(r.value):
+                flows += list(fl.atoms(r.value))
+        for f in [f for (pn, f, _g) in memo_getters(bm) if pn == name]:
+            flows += list(fl.atoms(_self_attr(sn, f), fl.env_exit()))
+        bad = [c for c in flows if isinstance(c, ast.Call) and call_name(c) in SIGN_DESTROYING]
         res.inst(f"BlockModel.{name}: no abs / sort / unique on the flow from the delimiters to the result", nontrivial=True, ok=not bad)
         for c in bad[:1]:
-            res.find("BlockModel", name, f"{unparse(c.func)} on the flow to the result ({unparse(c)[:40]})", f"{g.module.relpath}:{c.lineno}",
+            res.find("BlockModel", name, f"{call_name(c)} on the flow from the delimiters to the result", f"{g.module.relpath}:{c.lineno}",
                      "cell sizes must stay the signed differences of consecutive delimiters (a model whose z delimiters decrease has negative cell "
                      "heights and centres below the origin); discarding the sign or the order mirrors those centres")
     return res
+
+
+def _dtype_fields(ctx, fn, e, fl=None, env=None, depth=0):
+    """Field names of a structured dtype expression: [("x", float), ...] / np.dtype([...]) / {"names": [...], ...} / a local,
+    module-level or class-level name bound to one of these; 'same' for `<self.origin>.dtype` (the dtype already stored)."""
+    import ast
+
+    from ._c17_flow import call_name, key_of
+
+    if e is None or depth > 6:
+        return None
+    if isinstance(e, (ast.List, ast.Tuple)):
+        names = []
+        for el in e.elts:
+            if isinstance(el, (ast.Tuple, ast.List)) and el.elts and isinstance(el.elts[0], ast.Constant) and isinstance(el.elts[0].value, str):
+                names.append(el.elts[0].value)
+            else:
+                return None
+        return names
+    if isinstance(e, ast.Dict):
+        for k, v in zip(e.keys, e.values):
+            if isinstance(k, ast.Constant) and k.value == "names" and isinstance(v, (ast.List, ast.Tuple)):
+                return [x.value for x in v.elts if isinstance(x, ast.Constant)]
+        return None
+    if isinstance(e, ast.Call) and call_name(e) in ("dtype", "format_parser") and e.args:
+        return _dtype_fields(ctx, fn, e.args[0], fl, env, depth + 1)
+    if isinstance(e, ast.Attribute) and e.attr == "dtype":
+        b = e.value
+        if fl is not None:
+            b, _ = fl.resolve(b, env)
+        kb = key_of(b) or ""
+        if kb == f"{fn.self_name}.origin" or (fn.cls is not None and kb.startswith(f"{fn.self_name}.") and kb.split(".", 1)[1] in _backing(fn.cls, "origin")):
+            return "same"
+        return None
+    k = key_of(e)
+    if k is None:
+        return None
+    if fl is not None:
+        r, renv = fl.resolve(e, env)
+        if r is not e:
+            return _dtype_fields(ctx, fn, r, fl, renv, depth + 1)
+    p = ctx.p
+    if isinstance(e, ast.Name):
+        r = p.resolve_name(fn.module, e.id)
+        if r and r[0] == "assign":
+            mod, val = r[1]
+            return _dtype_fields(ctx, replace_module(fn, mod), val, None, None, depth + 1)
+        return None
+    if isinstance(e, ast.Attribute) and isinstance(e.value, ast.Name):
+        owner = None
+        if fn.cls is not None and e.value.id in ("self", "cls", fn.self_name or ""):
+            owner = fn.cls
+        else:
+            r = p.resolve_name(fn.module, e.value.id)
+            if r and r[0] == "class":
+                owner = r[1]
+        if owner is not None:
+            m = owner.lookup(e.attr)
+            if m and m[1] == "assign" and m[2] is not None:
+                return _dtype_fields(ctx, fn, m[2], None, None, depth + 1)
+    return None
+
+
+def replace_module(fn, mod):
+    from dataclasses import replace
+
+    return replace(fn, module=mod) if mod is not fn.module else fn
+
+
+def _structured(ctx, K, fn, fl, v, env, depth=0):
+    """Is the value expression an (x, y, z) record array?  Decided by how the value is built (an array constructor / cast with a
+    structured dtype, possibly bound to a local first, chosen by a conditional expression, or returned by a helper of the class)."""
+    import ast
+
+    from ._c17_flow import Flow, call_name, key_of
+
+    if depth > 6 or v is None:
+        return False
+    if key_of(v) is not None:
+        ds, entry = fl.reaching(v, env)
+        strong = [d for d in ds if d.strong]
+        if entry or not strong:
+            return False
+        for d in strong:
+            st = d.stmt
+            if isinstance(st, ast.Assign) and d.value is st.value and any(isinstance(t, (ast.Tuple, ast.List)) for t in st.targets):
+                return False
+            if isinstance(st, (ast.For, ast.AsyncFor, ast.With, ast.AsyncWith)) or d.value is None:
+                return False
+            if not _structured(ctx, K, fn, fl, d.value, fl.env([d.node]), depth + 1):
+                return False
+        return True
+    if isinstance(v, ast.IfExp):
+        return _structured(ctx, K, fn, fl, v.body, env, depth + 1) and _structured(ctx, K, fn, fl, v.orelse, env, depth + 1)
+    if isinstance(v, ast.NamedExpr):
+        return _structured(ctx, K, fn, fl, v.value, env, depth + 1)
+    if not isinstance(v, ast.Call):
+        return False
+    nm = call_name(v)
+    dt = next((k.value for k in v.keywords if k.arg == "dtype"), None)
+    if dt is None and nm in ("astype", "view") and v.args:
+        dt = v.args[0]
+    if dt is None and nm in ("fromarrays", "fromrecords") and any(k.arg == "names" for k in v.keywords):
+        nv = next(k.value for k in v.keywords if k.arg == "names")
+        return isinstance(nv, (ast.List, ast.Tuple)) and [getattr(x, "value", None) for x in nv.elts] == _xyz_fields
+    if dt is not None:
+        names = _dtype_fields(ctx, fn, dt, fl, env)
+        if names == "same":
+            return True
+        return names == _xyz_fields
+    # copies / no-op conversions of a record array: np.asarray(rec) / np.array(rec) / rec.copy() / rec.squeeze()
+    if nm in ("asarray", "array", "asanyarray", "ascontiguousarray", "copy", "squeeze"):
+        def is_module(e):
+            r = ctx.p.resolve_name(fn.module, e.id) if isinstance(e, ast.Name) else None
+            return bool(r) and r[0] in ("external", "module")
+
+        if isinstance(v.func, ast.Attribute) and not is_module(v.func.value) and not v.args:
+            inner = v.func.value  # rec.copy()
+        else:
+            inner = v.args[0] if v.args else None  # np.copy(rec)
+        return inner is not None and _structured(ctx, K, fn, fl, inner, env, depth + 1)
+    # a (non-private, hence not expanded) helper of the class or of the module: every value it returns
+    callee = None
+    f = v.func
+    if isinstance(f, ast.Attribute) and isinstance(f.value, ast.Name) and f.value.id in ("self", "cls", fn.self_name or ""):
+        m = K.lookup(f.attr)
+        callee = m[2] if m and m[1] == "method" else None
+    elif isinstance(f, ast.Name):
+        r = ctx.p.resolve_name(fn.module, f.id)
+        callee = r[1] if r and r[0] == "func" else None
+    if callee is not None and callee.node is not fn.node and depth < 3:
+        cv = ctx.view(callee)
+        cfl = Flow(cv.node)
+        rets = [r for r in ast.walk(cv.node) if isinstance(r, ast.Return) and (r.value is None or cfl.nodes_of(r.value))]
+        return bool(rets) and all(r.value is not None and _structured(ctx, K, cv, cfl, r.value, cfl.env(cfl.nodes_of(r.value)), depth + 1) for r in rets)
+    return False
+
+
+def _mentions(fn, attrs, store=None):
+    """cheap pre-filter on the raw syntax tree: some `<x>.<attr>` with attr in attrs (Store / Load as asked) or the attr name as a string constant."""
+    import ast
+
+    for n in ast.walk(fn.node):
+        if isinstance(n, ast.Attribute) and n.attr in attrs and (store is None or isinstance(n.ctx, (ast.Store, ast.Del)) == store):
+            return True
+        if isinstance(n, ast.Constant) and n.value in attrs:
+            return True
+    return False
+
+
+def _reads_origin_by_field(ctx, fn, backing) -> bool:
+    """Does fn subscript the origin record with a field name (self.origin['x'], o = self.origin; o[axis] for axis in ('x', ..))?"""
+    import ast
+
+    from ._c17_flow import Flow, key_of
+
+    key = ("c17.origin_read", id(fn.node), tuple(sorted(backing)))
+    if key in ctx.cache:
+        return ctx.cache[key]
+    out = False
+    if _mentions(fn, {"origin"} | backing) and any(isinstance(n, ast.Subscript) for n in ast.walk(fn.node)):
+        v = ctx.view(fn)
+        sn = v.self_name or "self"
+        fl = Flow(v.node)
+        for x in ast.walk(v.node):
+            if not (isinstance(x, ast.Subscript) and fl.nodes_of(x)) or isinstance(x.slice, ast.Slice):
+                continue
+            base, _ = fl.resolve(x.value)
+            if key_of(base) not in [f"{sn}.{a}" for a in {"origin"} | backing]:
+                continue
+            if any(isinstance(a, ast.Constant) and isinstance(a.value, str) for a in fl.atoms(x.slice)):
+                out = True
+                break
+    ctx.cache[key] = out
+    return out
 
 
 def rule_origin(ctx) -> RuleResult:
     import ast
 
     from ..model import unparse
+    from ._c17_flow import Flow, key_of
 
     res = RuleResult(
         "C17.ORIGIN",
@@ -227,19 +479,17 @@ def rule_origin(ctx) -> RuleResult:
     for K in p.subclasses(p.cls("GridObject")):
         if K.synthetic:
             continue
+        backing = _backing(K, "origin")
+        if not backing:
+            continue
         reads = False
         for c in K.mro:
             if isinstance(c, str):
                 continue
             fns = list(c.methods.values()) + [f for pr in c.props.values() for f in (pr.getter, pr.setter) if f is not None]
-            for fn in fns:
-                sn = fn.self_name or "self"
-                str_loop_vars = {t.id for lp in ast.walk(fn.node) if isinstance(lp, ast.For) for t in ast.walk(lp.target) if isinstance(t, ast.Name)
-                                 if any(isinstance(e, ast.Constant) and isinstance(e.value, str) for e in ast.walk(lp.iter))}
-                if any(isinstance(x, ast.Subscript) and unparse(x.value) == f"{sn}.origin"
-                       and (isinstance(x.slice, ast.Constant) and isinstance(x.slice.value, str) or isinstance(x.slice, ast.Name) and x.slice.id in str_loop_vars)
-                       for x in ast.walk(fn.node)):
-                    reads = True
+            if any(_reads_origin_by_field(ctx, fn, backing) for fn in fns):
+                reads = True
+                break
         if not reads:
             continue
         for c in K.mro:
@@ -247,36 +497,23 @@ def rule_origin(ctx) -> RuleResult:
                 continue
             fns = list(c.methods.values()) + [f for pr in c.props.values() for f in (pr.getter, pr.setter) if f is not None and f.cls is c]
             for fn in fns:
-                sn = fn.self_name or "self"
-                local = {}
-                for n in sorted((x for x in ast.walk(fn.node) if hasattr(x, "lineno")), key=lambda x: (x.lineno, x.col_offset)):
+                if not _mentions(fn, backing):
+                    continue
+                v = ctx.view(fn)
+                sn = v.self_name or "self"
+                fl = None
+                for n in ast.walk(v.node):
                     if isinstance(n, (ast.Assign, ast.AnnAssign)) and n.value is not None:
                         tg = n.targets if isinstance(n, ast.Assign) else [n.target]
-                        for t in tg:
-                            if isinstance(t, ast.Name):
-                                local.setdefault(t.id, []).append(n.value)
-
-                def structured(v, depth=0):
-                    if isinstance(v, ast.Call) and unparse(v.func) in ("np.asarray", "np.array", "numpy.asarray", "numpy.array"):
-                        dt = next((k.value for k in v.keywords if k.arg == "dtype"), None)
-                        if dt is not None:
-                            names = [e.elts[0].value for e in getattr(dt, "elts", []) if isinstance(e, ast.Tuple) and e.elts and isinstance(e.elts[0], ast.Constant)]
-                            return names == ["x", "y", "z"]
-                        return False
-                    if isinstance(v, ast.Name) and v.id in local and depth < 3:
-                        # the last binding decides (the setters normalise `value` step by step)
-                        return structured(local[v.id][-1], depth + 1)
-                    return False
-
-                for n in ast.walk(fn.node):
-                    if isinstance(n, (ast.Assign, ast.AnnAssign)) and n.value is not None:
-                        tg = n.targets if isinstance(n, ast.Assign) else [n.target]
-                        if any(unparse(t) == f"{sn}._origin" for t in tg):
-                            ok = structured(n.value)
+                        if any(key_of(t) in [f"{sn}.{f}" for f in backing] for t in tg):
+                            fl = fl or Flow(v.node)
+                            if not fl.nodes_of(n.value):
+                                continue
+                            ok = _structured(ctx, K, v, fl, n.value, fl.env(fl.nodes_of(n.value)))
                             if c is K or K.lookup("origin") is not None:
                                 res.inst(f"{K.name}: {fn.qualname}:{n.lineno} stores {unparse(n.value)[:40]} in _origin", nontrivial=True, ok=ok)
                                 if not ok:
-                                    res.find(c.name, fn.prop or fn.name, f"_origin = {unparse(n.value)[:40]} is not an (x, y, z) record", f"{fn.module.relpath}:{n.lineno}",
+                                    res.find(c.name, fn.prop or fn.name, "the value stored in _origin is not an (x, y, z) record", f"{fn.module.relpath}:{n.lineno}",
                                              f"{K.name}'s geometry reads self.origin['x'/'y'/'z']; with this value stored the centroids getter raises IndexError "
                                              "(e.g. an object created without an explicit origin)", resolved_on=K.name)
     return res
